@@ -252,3 +252,61 @@ Definition all_fields (lits : list string) : bool :=
 
 Definition star_fields (fields : list sfield) : list sfield :=
   filter (fun f => negb (is_prevented (sf_tag f))) fields.
+
+(* ------------------------------------------------------------------ processValue's whitelist walk *)
+(* node kinds of go/ast as processValue tells them apart *)
+Inductive vkind :=
+| KGood        (* ArrayType BasicLit BinaryExpr ChanType CompositeLit FuncType Ident IndexExpr InterfaceType
+                  KeyValueExpr MapType ParenExpr SelectorExpr SliceExpr StarExpr StructType TypeAssertExpr,
+                  and UnaryExpr other than a receive *)
+| KConv        (* CallExpr whose callee denotes a type, or that the type checker folded to a constant *)
+| KCall        (* any other CallExpr: function, method, builtin, call through a function-typed variable *)
+| KRecv        (* UnaryExpr with operator <- *)
+| KOther.      (* FuncLit, IndexListExpr, Ellipsis, FieldList/Field under a literal struct/func/interface type, ... *)
+
+Inductive vexpr := VN (k : vkind) (children : list vexpr).
+
+(* ast.Inspect visits in pre-order; a bad node clears the shared flag (which nothing sets again) and prunes its
+   subtree: the expression is accepted iff every node is acceptable *)
+Fixpoint value_ok (e : vexpr) : bool :=
+  match e with
+  | VN k cs =>
+    match k with
+    | KGood | KConv => (fix all (l : list vexpr) : bool := match l with [] => true | x :: r => value_ok x && all r end) cs
+    | _ => false
+    end
+  end.
+
+(* evaluating the expression calls no function or method and receives from no channel *)
+Inductive effect_free : vexpr -> Prop :=
+| ef_node k cs : (k = KGood \/ k = KConv) -> Forall effect_free cs -> effect_free (VN k cs).
+
+Section VInd.
+Variable P : vexpr -> Prop.
+Hypothesis H : forall k cs, Forall P cs -> P (VN k cs).
+Fixpoint vexpr_ind' (e : vexpr) : P e :=
+  match e with
+  | VN k cs => H k cs ((fix go (l : list vexpr) : Forall P l :=
+                          match l with [] => Forall_nil P | x :: r => Forall_cons x (vexpr_ind' x) (go r) end) cs)
+  end.
+End VInd.
+
+Theorem value_ok_effect_free : forall e, value_ok e = true -> effect_free e.
+Proof.
+  induction e as [k cs IH] using vexpr_ind'. cbn [value_ok].
+  destruct k; try discriminate; intros Hall; constructor; auto.
+  - clear -IH Hall. induction cs as [|x r IHr]; constructor; inversion IH; subst;
+      apply andb_true_iff in Hall; destruct Hall; auto.
+  - clear -IH Hall. induction cs as [|x r IHr]; constructor; inversion IH; subst;
+      apply andb_true_iff in Hall; destruct Hall; auto.
+Qed.
+
+Theorem value_ok_complete : forall e, effect_free e -> value_ok e = true.
+Proof.
+  induction e as [k cs IH] using vexpr_ind'. intros Hef. inversion Hef as [k' cs' Hk Hcs]; subst. cbn [value_ok].
+  assert (Hall : (fix all (l : list vexpr) : bool := match l with [] => true | x :: r => value_ok x && all r end) cs = true).
+  { clear -IH Hcs. induction cs as [|x r IHr]; auto.
+    inversion IH as [|? ? Hx Hr]; subst. inversion Hcs as [|? ? Ex Er]; subst.
+    rewrite (Hx Ex). cbn. apply IHr; auto. }
+  destruct Hk as [-> | ->]; exact Hall.
+Qed.
